@@ -90,6 +90,7 @@ func main() {
 	scratchRoot = p.Scratch
 	fmt.Printf("c14: mode=%s sites=%d flagged=%d files=%d build=%.1fs %s\n", p.Mode, p.Instr.NumSites, p.Instr.Flagged, len(p.Instr.Files), p.BuildS, p.Go)
 	if p.Mode == "degraded" {
+		degradedMode = true
 		defaultGOMAXPROCS = 4
 		fmt.Printf("c14: DEGRADED MODE (%s): real goroutines under the race detector, failures not replayable\n", p.Why)
 	}
@@ -132,7 +133,8 @@ type tierPlan struct {
 	DetSeeds    int
 	PlainS      float64
 	RaceS       float64
-	ColdProcs   int // per build flavour
+	ColdProcs   int // plain build
+	ColdRace    int // race build (first-use races show only here; a cold process costs ~50 ms)
 	ColdCount   int // runs per cold process
 	MinimiseS   float64
 	GiantS      float64 // giant-input phase, plain build
@@ -144,19 +146,21 @@ type tierPlan struct {
 // instead of a millisecond, so they are rare in the quick tier).
 func giantEveryFor(o *options) uint64 { return 0 } // bulk phases: none; the giant phase passes 1 explicitly
 
+var degradedMode bool
+
 func planFor(o *options) tierPlan {
 	if o.Tier == "thorough" {
 		b := o.BudgetS
 		if b == 0 {
 			b = 1500
 		}
-		return tierPlan{DetSeeds: 40, PlainS: b * 0.45, RaceS: b * 0.45, ColdProcs: 400, ColdCount: 6, MinimiseS: 180, GiantS: b * 0.05, GiantRaceS: b * 0.04, WorkerGrace: 5 * time.Minute}
+		return tierPlan{DetSeeds: 40, PlainS: b * 0.45, RaceS: b * 0.45, ColdProcs: 400, ColdRace: 2400, ColdCount: 4, MinimiseS: 180, GiantS: b * 0.05, GiantRaceS: b * 0.04, WorkerGrace: 5 * time.Minute}
 	}
 	b := o.BudgetS
 	if b == 0 {
 		b = 34
 	}
-	return tierPlan{DetSeeds: 10, PlainS: b * 0.4, RaceS: b * 0.6, ColdProcs: 128, ColdCount: 3, MinimiseS: 25, GiantS: 4, WorkerGrace: 2 * time.Minute}
+	return tierPlan{DetSeeds: 10, PlainS: b * 0.4, RaceS: b * 0.6, ColdProcs: 128, ColdRace: 512, ColdCount: 3, MinimiseS: 25, GiantS: 4, WorkerGrace: 2 * time.Minute}
 }
 
 type finding struct {
@@ -174,6 +178,12 @@ type finding struct {
 
 func explore(o *options, p *prepared, t0 time.Time, writeEvidence bool) int {
 	plan := planFor(o)
+	if degradedMode {
+		// real goroutines on real cores: every scenario is repeated, giants take seconds each
+		plan.GiantS /= 2
+		plan.GiantRaceS = 0
+		plan.WorkerGrace = 6 * time.Minute
+	}
 	ev := newEvidence(o, p)
 	var findings []finding
 	var infra []string
@@ -225,9 +235,11 @@ func explore(o *options, p *prepared, t0 time.Time, writeEvidence bool) int {
 	var specs []workerSpec
 	for i := 0; i < plan.ColdProcs; i++ {
 		specs = append(specs, workerSpec{Bin: p.BinPlain, Args: []string{"-base", u(o.Seed), "-from", u(idxCold + uint64(i*plan.ColdCount)), "-count", strconv.Itoa(plan.ColdCount), "-cold-first", "-samples", "0",
-			"-sigs", filepath.Join(p.Scratch, fmt.Sprintf("sigs-cold-%d.bin", i))}, Timeout: plan.WorkerGrace})
+			"-sigs", filepath.Join(p.Scratch, fmt.Sprintf("sigs-cold-%d.bin", i%64))}, Timeout: plan.WorkerGrace})
+	}
+	for i := 0; i < plan.ColdRace; i++ {
 		specs = append(specs, workerSpec{Bin: p.BinRace, Race: true, Args: []string{"-base", u(o.Seed), "-from", u(idxColdRace + uint64(i*plan.ColdCount)), "-count", strconv.Itoa(plan.ColdCount), "-cold-first", "-samples", "0",
-			"-sigs", filepath.Join(p.Scratch, fmt.Sprintf("sigs-coldr-%d.bin", i))}, Timeout: plan.WorkerGrace})
+			"-sigs", filepath.Join(p.Scratch, fmt.Sprintf("sigs-coldr-%d.bin", i%64))}, Timeout: plan.WorkerGrace})
 	}
 	tc := time.Now()
 	collect("cold", runWorkers(specs, o.Workers))
